@@ -2394,12 +2394,21 @@ class Polynom(Obj):
         if target is None:
             target = self.term.target
 
-        expanded = Add(*[
-            t.expand_intermediates(target, return_sympy=True,
-                                   fully_expand=fully_expand)
-            for t in self.terms
-        ])
-        expanded = Pow(expanded, self.exponent)
+        def expand_bracket():
+            return Add(*[
+                t.expand_intermediates(target, return_sympy=True,
+                                       fully_expand=fully_expand)
+                for t in self.terms
+            ])
+
+        exponent = self.exponent
+        if exponent == int(exponent) and exponent > 1:
+            # expand each factor of the power separately: the contracted
+            # indices of the intermediate definitions must not be shared
+            # between the factors
+            expanded = Mul(*[expand_bracket() for _ in range(int(exponent))])
+        else:
+            expanded = Pow(expand_bracket(), exponent)
         if return_sympy:
             return expanded
         else:
